@@ -7,3 +7,7 @@ import TeosVerif.Props.C01
 #print axioms Teos.C01.every_matching_row_visited
 #print axioms Teos.C01.late_appointment_answered
 #print axioms Teos.C01.late_undecryptable_not_stored
+#print axioms Teos.C01.every_breach_in_a_block_is_answered
+#print axioms Teos.C01.breaches_answered_in_every_history
+#print axioms Teos.C01.only_breached_appointments_are_touched
+#print axioms Teos.C01.breach_call_sites_are_the_modelled_ones
